@@ -510,6 +510,103 @@ def cross_process(col):
         col.violation({"property": "C09", "sig": "C09:fresh-process-result-differs", "kind": "proc", "address_dependent": True, "detail": {"digests": outs}})
 
 
+# ---------------------------------------------------------------- iteration order of sets of STRINGS (IDs)
+# The order in which CPython iterates a set of strings depends on the interpreter's hash seed, which a harness cannot set
+# inside a running process.  It is owned from outside instead: fresh interpreters are started with PYTHONHASHSEED = 0, 1, 2, ...
+# and each reports the order in which it iterates the probe ID sets; seeds are kept until every permutation of every probe
+# set has been realised, and the string-sensitive models are then simulated under each kept seed.
+ID_GROUPS = (("W0", "W1"), ("W0", "W1", "W2"), ("F0", "F1"), ("T0", "T1", "T2"))
+_SUB_PROBE = "import sys; print(';'.join(','.join(set(g.split(','))) for g in sys.argv[1:]))"
+
+
+def string_order_items():
+    out = []
+    # fixed worker-ID lists (the three IDs written in every order) x solo flags: whoever is visited first decides the result
+    for fix in itertools.permutations(("W0", "W1", "W2")):
+        for solo in ((True, True, True), (False, False, False), (False, True, False)):
+            ws = [{"name": "W%d" % i, "skills": {"T0": (1.0, 2.0, 0.5)[i], "T1": 1.0}, "solo": solo[i], "cost": (3.0, 1.0, 2.0)[i]} for i in range(3)]
+            sp = {"tasks": [{"name": "T0", "work": 4.0, "fixw": list(fix)}, {"name": "T1", "work": 2.0, "fixw": list(fix[:2])}], "links": [],
+                  "teams": [{"name": "TM0", "targets": [0, 1], "workers": ws}]}
+            out.append((sp, {"rule": "TSLACK", "max_time": 30}))
+    for sp in list(F.fac_specs("quick"))[::6]:
+        out.append((sp, {"rule": "TSLACK", "max_time": F.seq_bound(sp) + 6}))
+    # fixed facility-ID lists
+    for fixf in (["F0", "F1"], ["F1", "F0"]):
+        for solo in (False, True):
+            sp = {"tasks": [{"name": "T0", "work": 4.0, "nf": True, "fixf": fixf}], "links": [], "components": [{"name": "C0", "tasks": [0]}],
+                  "workplaces": [{"name": "WP0", "cap": 1.0, "targets": [0], "facilities": [{"name": "F0", "skills": {"T0": 1.0}, "cost": 1.0, "solo": solo}, {"name": "F1", "skills": {"T0": 2.0}, "cost": 3.0, "solo": solo}]}],
+                  "teams": [{"name": "TM0", "targets": [0], "workers": [{"name": "W0", "skills": {"T0": 1.0}, "fskills": {"F0": 1.0, "F1": 1.0}, "cost": 1.0}, {"name": "W1", "skills": {"T0": 1.0}, "fskills": {"F0": 1.0, "F1": 1.0}, "cost": 2.0}]}]}
+            out.append((sp, {"rule": "TSLACK", "max_time": 30}))
+    return out
+
+
+_SUB_STR = r"""
+import sys, json, hashlib
+sys.path.insert(0, %r)
+from mc.props import c09
+from mc import runner
+out = []
+for spec, opts in c09.string_order_items():
+    ex = runner.run(spec, dict(opts, phases=()))
+    out.append(hashlib.sha256((c09.jdump(ex.m) if ex.error is None else 'ERR:' + ex.error).encode()).hexdigest())
+print(json.dumps(out))
+"""
+
+
+def covering_seeds(max_seed=200):
+    import math
+
+    need = {g: math.factorial(len(g)) for g in ID_GROUPS}
+    seen = {g: set() for g in ID_GROUPS}
+    kept = []
+    for s in range(max_seed):
+        r = subprocess.run([sys.executable, "-c", _SUB_PROBE] + [",".join(g) for g in ID_GROUPS], env=dict(os.environ, PYTHONHASHSEED=str(s)), capture_output=True, text=True)
+        if r.returncode != 0:
+            raise RuntimeError("probe failed: " + r.stderr[-500:])
+        orders = r.stdout.strip().split(";")
+        new = False
+        for g, o in zip(ID_GROUPS, orders):
+            if o not in seen[g]:
+                seen[g].add(o)
+                new = True
+        if new:
+            kept.append(s)
+        if all(len(seen[g]) == need[g] for g in ID_GROUPS):
+            break
+    return kept, {",".join(g): "%d/%d" % (len(seen[g]), need[g]) for g in ID_GROUPS}
+
+
+def string_hash_seeds(col):
+    """string-sensitive models under every iteration order of the probe ID sets (one fresh interpreter per covering hash seed)"""
+    here = os.path.dirname(os.path.dirname(os.path.dirname(os.path.abspath(__file__))))
+    seeds, cover = covering_seeds()
+    res = {}
+    for s in seeds:
+        r = subprocess.run([sys.executable, "-c", _SUB_STR % here], env=dict(os.environ, PYTHONHASHSEED=str(s)), capture_output=True, text=True, cwd=here)
+        if r.returncode != 0:
+            raise RuntimeError("subprocess failed: " + r.stderr[-2000:])
+        res[s] = json.loads(r.stdout.strip().splitlines()[-1])
+    n = len(res[seeds[0]])
+    col.checks["c09.string-hash-seeds"] += 1
+    col.evaluations += n * len(seeds)
+    col.extra["string_hash_seeds_used"] += len(seeds)
+    col.extra["string_order_models"] += n
+    for k, v in cover.items():
+        col.extra["id-set-orders-realised {%s}: %s" % (k, v)] += 1
+    for s in seeds:
+        for i in range(n):
+            col.transitions.add(hash(("strseed", s, i)))
+    bad = [i for i in range(n) if len(set(res[s][i] for s in seeds)) > 1]
+    if bad:
+        i = bad[0]
+        groups = {}
+        for s in seeds:
+            groups.setdefault(res[s][i], []).append(s)
+        col.violation({"property": "C09", "sig": "C09:result-depends-on-string-hash-seed(iteration-order-of-a-set-of-IDs)", "kind": "strseed",
+                       "detail": {"models_differing": len(bad), "of": n, "first_model_index(in string_order_items())": i, "spec": string_order_items()[i][0],
+                                  "PYTHONHASHSEED values grouped by result": sorted(groups.values())}})
+
+
 def run(tier, seed):
     pi = perm_items(tier)
     col = engines.fanout(pi, work_perms, seed=seed)
@@ -518,6 +615,7 @@ def run(tier, seed):
     cross_process(col)
     history_dependence(col)
     default_id_rebuild(col)
+    string_hash_seeds(col)
     col.merge(engines.fanout(edit_cases(), work_edits, seed=seed))
     ei = event_items(tier)
     col.merge(engines.fanout(ei, work_events, seed=seed))
@@ -526,12 +624,12 @@ def run(tier, seed):
         "rule": "schedule exploration: for every 3-task workflow over the four dependency kinds x works {1,2} x layouts x rules (thorough: also 4-task FS/FF/SS) and FAC models, ALL n! "
         "assignments of hash ranks to tasks (and all permutations for components), i.e. every iteration order of every internal set of tasks/components, complete dump compared with "
         "the identity order (and all orders of worker hashes); histories on one object (simulate;simulate, simulate with other absence/auto arguments or log edits then simulate, backward_simulate with every flag pair then simulate), rebuilt models with the library's id()-hashed classes, edits of the model between two runs on one object (team targeting added/removed, skill, work amount, solo flag, absence list extended in place, worker moved to another team, dependency added) compared with a freshly built edited model, contamination histories (activity on project A, then "
-        "default-argument simulate on a fresh project B, mutable defaults compared), one sub-family in two fresh interpreters with different PYTHONHASHSEED, the same models in list order and in reversed order in two fresh interpreters (no dependence on what ran earlier in the process), models whose resources get generated default IDs built three times; per-iteration-event deviations: with a set subclass injected into the library's modules, every single iteration "
+        "default-argument simulate on a fresh project B, mutable defaults compared), one sub-family in two fresh interpreters with different PYTHONHASHSEED, the same models in list order and in reversed order in two fresh interpreters (no dependence on what ran earlier in the process), models whose resources get generated default IDs built six times; models with fixed worker/facility ID lists x solo flags simulated in fresh interpreters under every iteration order of their ID sets (covering PYTHONHASHSEED values); per-iteration-event deviations: with a set subclass injected into the library's modules, every single iteration "
         "event of a run is given every alternative order of that set (deviation bound 1) on 2-3 task models; "
         "non-trivial = distinct models with at least one dependency link (permutations) or explored history roots",
         "bounds": {"perm_models": len(pi), "history_models": len(hi), "tasks": "3 (thorough 4)", "event_deviation_models": len(ei), "event_deviation_bound": 1},
         "assumptions": ["for small distinct integer hashes CPython sets iterate in ascending hash order, so n! hash-rank assignments realise every iteration order of the sets the library builds",
-                        "string hashing cannot influence the library (its sets hold only model objects); checked by the two-interpreter run"],
+                        "string hashing is owned from outside: fresh interpreters under hash seeds chosen so that every iteration order of the probe ID sets {W0,W1}, {W0,W1,W2}, {F0,F1}, {T0,T1,T2} occurs (coverage in evidence.extra)"],
     }
     return col, meta
 
@@ -559,6 +657,10 @@ def replay(v):
     if v.get("kind") == "defaultid":
         col = engines.Collector()
         default_id_rebuild(col)
+        return col.violations
+    if v.get("kind") == "strseed":
+        col = engines.Collector()
+        string_hash_seeds(col)
         return col.violations
     if v.get("kind") == "proc":
         col = engines.Collector()
